@@ -88,6 +88,10 @@ func (vfs *OrefaFS) VerifCheck(rootKey string) []string {
 	sort.Strings(idx)
 
 	for _, p := range idx {
+		if p == rootKey+sep && vfs.nodes[p] == root {
+			continue // the root is indexed under its own path too.
+		}
+
 		nd, found := reach[p]
 		if !found {
 			out = append(out, fmt.Sprintf("index holds %q which is not reachable through children maps", p))
